@@ -198,6 +198,9 @@ class kMinPathErrorCycles(walkmodel.AbstractWalkModelDiGraph):
             raise ValueError(f"weight_type must be either int or float, not {weight_type}")
         self.weight_type = weight_type
 
+        if k is not None and (not isinstance(k, int) or isinstance(k, bool) or k <= 0):
+            utils.logger.error(f"{__name__}: k must be a positive integer, not {k}")
+            raise ValueError(f"k must be a positive integer, not {k}")
         self.k = k
         # If k is not specified, we set k to the edge width of the graph
         if self.k is None:
